@@ -281,9 +281,13 @@ func FilterLeaf(t *rapid.T, ts *TypeSpec, vals map[string]any, label string) *FN
 		if op == "in" {
 			list := []string{}
 			n := rapid.IntRange(0, 3).Draw(t, label+"-nin")
+			if rapid.IntRange(0, 7).Draw(t, label+"-nin-long") == 0 {
+				// (a length at which a list may be turned into a set)
+				n = rapid.IntRange(8, 20).Draw(t, label+"-nin-many")
+			}
 
 			for j := 0; j < n; j++ {
-				if rapid.Bool().Draw(t, label+"-inhit") {
+				if n < 8 && rapid.Bool().Draw(t, label+"-inhit") || n >= 8 && j == 0 && rapid.Bool().Draw(t, label+"-inhit-long") {
 					list = append(list, vals[a.Name].(string))
 				} else {
 					list = append(list, HostileString(t, label+"-inval"))
@@ -308,9 +312,13 @@ func FilterLeaf(t *rapid.T, ts *TypeSpec, vals map[string]any, label string) *FN
 		if op == "in" {
 			list := []string{}
 			n := rapid.IntRange(0, 3).Draw(t, label+"-nin")
+			if rapid.IntRange(0, 7).Draw(t, label+"-nin-long") == 0 {
+				// (a length at which a list may be turned into a set)
+				n = rapid.IntRange(8, 20).Draw(t, label+"-nin-many")
+			}
 
 			for j := 0; j < n; j++ {
-				if rapid.Bool().Draw(t, label+"-inhit") {
+				if n < 8 && rapid.Bool().Draw(t, label+"-inhit") || n >= 8 && j == 0 && rapid.Bool().Draw(t, label+"-inhit-long") {
 					list = append(list, cur)
 				} else {
 					list = append(list, IDString(t, label+"-inval", true))
